@@ -80,6 +80,11 @@ func checkKindConsistency(res *Result, p *Pub, rule, fnName string, wantPerKind 
 			res.check(recvIn, rule, fnName, p.pos(ci), fmt.Sprintf("the membership test guarding the append to '%s' looks at a set built from that same property", strings.ToLower(k)),
 				"the set consulted was not built from the receiver's entries (wrong kind or wrong level): entries are skipped or duplicated")
 		}
+		if !needBothDirections && guardingLookup(ci) == nil && len(loopBlocks(ci.Block())) > 0 {
+			// a plain copy loop: every entry of the source property is carried over, whatever its
+			// spelling (IRI or embedded value) — a lap that skips the append drops a recipient
+			checkEveryElementTried(res, p, rule, fn, ci, fmt.Sprintf("every '%s' entry is carried over (each way round the copy loop appends, or fails)", strings.ToLower(k)), "an entry of one spelling (an embedded actor, say) is left out of the "+strings.ToLower(k)+" of the wrapping Create and never delivered to")
+		}
 		recvObj := objectLevel(cc.Value)
 		srcObj, srcAct := false, false
 		for _, sp := range sourceProps(cc.Args[0]) {
